@@ -73,6 +73,9 @@ def process(tier, rng, cicada):
         prof = ["long", "mixed", "subst", "redir"][i % 4]
         nitems = 1 + r.below(30) if prof == "long" and i % 8 == 0 else 1 + r.below(8)
         cases.append(fdsess.make_case(fdsess.gen_items(r, prof, nitems, maxst=6)))
+    # whole-line builtins with every short redirection list, also ending in a target that cannot be opened (what the earlier
+    # redirections opened must be closed again): the shell's own table is compared after every command
+    cases += [fdsess.make_case(items, meta={"builtin_lists": True}) for items in fdsess.builtin_redir_sessions(r, tier)]
     cases += fdsess.corpus_cases()
     cases += limit_cases(r, tier)
     for i, c in enumerate(cases):
